@@ -249,13 +249,14 @@ impl RdbEngine {
             for key in keys {
                 if let GetResult::Found(value) = storage.get(db, &key)? {
                     // Check for expiration
-                    let expire_time = storage.ttl(db, &key)?
-                        .map(|ttl| SystemTime::now() + ttl);
+                    let expire_time = storage.ttl(db, &key)?.map(|ttl| {
+                        let now_ms = SystemTime::now().duration_since(UNIX_EPOCH).unwrap().as_millis();
+                        u64::try_from(now_ms.saturating_add(ttl.as_millis())).unwrap_or(u64::MAX)
+                    });
                     
                     // Write expiration if present
-                    if let Some(expire) = expire_time {
+                    if let Some(timestamp) = expire_time {
                         buffer.push(RdbOpcode::ExpireTimeMs as u8);
-                        let timestamp = expire.duration_since(UNIX_EPOCH).unwrap().as_millis() as u64;
                         buffer.extend_from_slice(&timestamp.to_le_bytes());
                     }
                     
@@ -445,10 +446,11 @@ impl RdbEngine {
                             // The remaining time becomes a wall-clock deadline at once: computed when the
                             // pair is written, the deadline would move by whatever time this thread spent
                             // (or was descheduled) in between
-                            let expiry_ms = ttl.map(|ttl| SystemTime::now()
-                                .duration_since(UNIX_EPOCH)
-                                .unwrap()
-                                .as_millis() as u64 + ttl.as_millis() as u64);
+                            // (a deadline beyond what 64 bits of milliseconds hold is written as the latest one)
+                            let expiry_ms = ttl.map(|ttl| {
+                                let now_ms = SystemTime::now().duration_since(UNIX_EPOCH).unwrap().as_millis();
+                                u64::try_from(now_ms.saturating_add(ttl.as_millis())).unwrap_or(u64::MAX)
+                            });
                             #[cfg(ferrous_verif)]
                             crate::verif::sync_point("rdb_after_get");
                             #[cfg(ferrous_verif)]
